@@ -4,7 +4,7 @@
 From Coq Require Import List Arith NArith ZArith Bool String.
 From Coq.Strings Require Import Byte.
 From Peppi Require Import Base.Bytes Base.Outcome Base.Stream Gen.Funs Model.Ubjson Model.Start Model.Parse Model.Reader Model.Frag Model.FragSkip
-  Proofs.ReadProof Proofs.Incremental Proofs.FragProof Proofs.FragSkipProof Proofs.Corollaries.
+  Gen.ParseEvent Proofs.ReadProof Proofs.Incremental Proofs.FragProof Proofs.FragSkipProof Proofs.Corollaries Proofs.ParseLayout.
 Import ListNotations.
 
 (* after every call, every column only grew by appending: what was completed before is a prefix of what any later
@@ -65,6 +65,11 @@ Theorem C12_oneshot_skip_any_fragmentation : forall hash data sched hashed0,
   end.
 Proof. exact slp_read_skip_frag. Qed.
 
+(* one incremental call -- code byte, declared size (an error for an undeclared code), exact read of the payload, the handler,
+   consumed-byte count += size + 1 -- is the call regenerated from src/io/slippi/de.rs parse_event on this run *)
+Theorem C12_event_call_from_source : forall s, parse_event s = parse_event_src s.
+Proof. exact parse_event_from_source. Qed.
+
 Print Assumptions C12_event_appends_only.
 Print Assumptions C12_oneshot_skip_any_fragmentation.
 Print Assumptions C12_prefix_of_later_states.
@@ -76,3 +81,4 @@ Print Assumptions C12_start_any_fragmentation.
 Print Assumptions C12_event_any_fragmentation.
 Print Assumptions C12_metadata_any_fragmentation.
 Print Assumptions C12_oneshot_any_fragmentation.
+Print Assumptions C12_event_call_from_source.
